@@ -16,9 +16,20 @@ def pytest_configure(config):
     t = shim.JsonTracer(yatiml, check_c07.lex)
     t.install()
     _tr['json'] = t
+    if os.environ.get('VERIF_LOAD_TRACE_OUT'):
+        import trace_load
+        r = trace_load.LoadRecorder()
+        r.install()
+        _tr['load'] = r
 
 
 def pytest_unconfigure(config):
+    r = _tr.get('load')
+    if r is not None:
+        r.uninstall()
+        with open(os.environ['VERIF_LOAD_TRACE_OUT'], 'w') as f:
+            json.dump({'records': r.records, 'skipped': dict(r.skipped)}, f,
+                      default=repr)
     t = _tr.get('json')
     if t is None:
         return
